@@ -58,6 +58,15 @@ def programs(tier):
     add("widths", [Let("v", Struct(W, [("a", Int(-128 + 1, "int8", suffix=True)), ("b", Int(18446744073709551615, "uint64", suffix=True)),
                                        ("c", Int(-9223372036854775807, "int64", suffix=True)), ("d", Int(255, "uint8", suffix=True))]), ty=W)] + both("v", "W"), expect="accept")
     add("empty-struct", [Let("v", Struct(TAdt("Z"), []), ty=TAdt("Z"))] + both("v", "Z"), expect="accept")
+    # field names that are also names the generated bodies use: the runtime helpers the body calls, and an enum variant of the package
+    def hdecl(p):
+        p.struct("Hb", [("int32_to_string", INT32), ("json_escape_string", STRING), ("bool_to_json", BOOL), ("string_add", STRING)], derives=BOTH)
+    def vdecl(p):
+        p.enum("kl", [("red", []), ("blue", [INT32])], derives=BOTH)
+        p.struct("Hv", [("red", INT32), ("blue", STRING)], derives=BOTH)
+    add("field-named-like-a-runtime-helper", [Let("v", Struct(TAdt("Hb"), [("int32_to_string", Int(1)), ("json_escape_string", Str("a")), ("bool_to_json", Bool(True)), ("string_add", Str("b"))]), ty=TAdt("Hb"))] + both("v", "Hb"),
+        expect="accept", extra_decl=hdecl)
+    add("field-named-like-a-variant", [Let("v", Struct(TAdt("Hv"), [("red", Int(1)), ("blue", Str("b"))]), ty=TAdt("Hv"))] + both("v", "Hv"), expect="accept", extra_decl=vdecl)
     # unit-typed payloads and fields at every position (first / middle / last / alone / all), next to values of other types
     def udecl(p):
         p.enum("U", [("U1", [UNIT]), ("U2", [INT32, UNIT]), ("U3", [UNIT, INT32, INT32]), ("U4", [UNIT, STRING, UNIT]), ("U5", [P, UNIT, C]), ("U6", [UNIT, UNIT])], derives=BOTH)
